@@ -203,6 +203,21 @@ def rule_d(repo, chk):
                     deps |= {src(x) for x in ast.walk(e) if isinstance(x, (ast.Attribute, ast.Constant, ast.Name))}
     ok = any('remote.ip' in d for d in deps) and any("User-Agent" in d for d in deps) and any('sha' in src(r.value) for r in rets)
     chk.ob('d', w.ref, 'the fingerprint is a hash over the remote address and the User-Agent header', ok, loc(w, w.node), discr='fingerprint-inputs')
+    st_cls = repo.cls(WEB_SESSIONS, 'MemoryStore')
+    n_idx = 0
+    for mname in ('load', 'save', 'delete'):
+        m = st_cls.methods.get(mname)
+        if m is None:
+            chk.ob('d', st_cls.ref, f'the store implements {mname}', False, WEB_SESSIONS, discr=f'store-{mname}')
+            continue
+        chk.touch(m)
+        sp = m.params[1]
+        idx = [w for w in ast.walk(m.node) if isinstance(w, ast.Subscript) and src(w.value) in ('self.data', 'self._data')]
+        n_idx += len(idx)
+        rebound = any(isinstance(w, (ast.Assign, ast.AugAssign)) and sp in [src(t) for t in (w.targets if isinstance(w, ast.Assign) else [w.target])] for w in ast.walk(m.node))
+        ok = bool(idx) and all(src(w.slice) == sp for w in idx) and not rebound
+        chk.ob('d', m.ref, 'session data is addressed by the complete session id (random part and fingerprint), exactly as presented', ok, loc(m, m.node),
+               detail='; '.join(src(w) for w in idx), discr=f'store-key:{mname}')
     s = repo.func(WEB_SESSIONS, 'Sessions.request')
     chk.touch(s)
     gs = s.cfg()
